@@ -150,6 +150,11 @@ func guard(f func() string) (res string) {
 func parseWith(kind, text string) string {
 	return guard(func() string {
 		b := literal.DefaultBuilder()
+		if strings.HasSuffix(kind, "b") && kind != "obj" {
+			// the bounded builder (what `bw load` uses): texts and blobs of more than 3 bytes are refused
+			b = literal.NewBoundedBuilder(3)
+			kind = strings.TrimSuffix(kind, "b")
+		}
 		switch kind {
 		case "node":
 			v, err := node.Parse(text)
@@ -249,7 +254,7 @@ func (t *textGen) printLine(kind, enc, printed string, ors []string) {
 	t.g.emit(fmt.Sprintf("W kind=%s value=%s or=%s", kind, enc, orField(ors)), "ok "+hx(printed))
 }
 
-var idAlphabet = []string{"a", "b", "Z", "0", "9", "_", "-", ".", ":", "/", "@", "[", "]", `"`, `\`, "^", "é", "ü", "日", "'", "{", "}", "(", ")", "?", "#", "~", "|", `"@[`, `"^^type:`, "@[]", "]]", `\"`, "type:text"}
+var idAlphabet = []string{"%", "%d", "%s", "%%", "%!", "%v", "a", "b", "Z", "0", "9", "_", "-", ".", ":", "/", "@", "[", "]", `"`, `\`, "^", "é", "ü", "日", "'", "{", "}", "(", ")", "?", "#", "~", "|", `"@[`, `"^^type:`, "@[]", "]]", `\"`, "type:text"}
 
 func (t *textGen) randID(noAngle bool) string {
 	var b strings.Builder
@@ -358,6 +363,8 @@ func (t *textGen) values(n int) {
 		l := t.randLit(false)
 		t.printLine("lit", encLit(l), l.String(), printOraclesLit(l))
 		t.parseLine("lit", l.String(), "printed")
+		t.parseLine("litb", l.String(), "mutated")
+		t.parseLine("objb", l.String(), "mutated")
 		o := t.randObj(false)
 		t.printLine("obj", encObj(o), o.String(), printOraclesObj(o))
 		t.parseLine("obj", o.String(), "printed")
@@ -365,6 +372,7 @@ func (t *textGen) values(n int) {
 		ors := append(printOraclesPred(tr.Predicate()), printOraclesObj(tr.Object())...)
 		t.printLine("triple", encTriple(tr), tr.String(), ors)
 		t.parseLine("triple", tr.String(), "printed")
+		t.parseLine("tripleb", tr.String(), "mutated")
 	}
 }
 
@@ -457,7 +465,7 @@ func (t *textGen) graphs(n int) {
 }
 
 func (t *textGen) arbitrary(maxLen, n int) {
-	kinds := []string{"node", "pred", "lit", "obj", "triple"}
+	kinds := []string{"node", "pred", "lit", "obj", "triple", "litb", "objb", "tripleb"}
 	alpha := []string{`"`, "@", "[", "]", "<", ">", "/", "_", ":", "^", "t", " ", "\t"}
 	var rec func(prefix string, depth int)
 	rec = func(prefix string, depth int) {
